@@ -56,5 +56,5 @@ SeedVal5 ==
 
 MCSeedsSmall == {SeedConv}
 MCSeedsQuick == {SeedConv, SeedImpl5}
-MCSeeds == {SeedImpl, SeedVal, SeedConv}
+MCSeeds == {SeedImpl, SeedVal5, SeedConv}
 =============================================================================
